@@ -12,7 +12,7 @@ PROPS = {
         "units": {"quick": [v("tree"), v("tree_lemmas")],
                   "thorough": [v("tree", "B"), v("tree", "C"), v("tree", "D"), v("tree", "A", join_order="rl"),
                                k("std_specs"), k("prelude_array_ref"), k("counter_words"), k("largest_power_of_two_leq"),
-                               k("left_subtree_len"), k("deps_models")]},
+                               k("left_subtree_len"), k("deps_models"), s("C01")]},
         "explanation": "Verus discharges, for all inputs, the postconditions that tie the real (mechanically "
                        "extracted) functions of src/lib.rs, src/portable.rs, src/platform.rs, src/hazmat.rs to a "
                        "BLAKE3 specification written as spec functions from the paper; every arithmetic operation, "
